@@ -197,8 +197,12 @@ def check_imports(cx, rep):
 
 
 def check_attrs_read(cx, rep):
+    from ..inline import origin_chains
     for f in cx.crate.fns:
+        if id(f) in getattr(cx.crate, 'fully_inlined', ()):
+            continue        # every call of this private helper is analysed as part of its caller (sa/inline.py)
         fw = cx.fw(f)
+        chains = origin_chains(f)
         reads = []
         for node in walk_json(f.block):
             if isinstance(node, dict) and node.get('k') == 'Field' and node.get('member') == 'attrs':
@@ -215,7 +219,7 @@ def check_attrs_read(cx, rep):
             inst = 'read=%s' % es(r)
             if id(r) in allowed:
                 rep.ok('ATTRS-READ', '%s|%s|%s' % (f.qname, inst, r.get('l')))
-            elif f.name == 'derive_input_handler' and es(r) == 'ast.attrs':
+            elif (f.name == 'derive_input_handler' or any(q.split('::')[-1] == 'derive_input_handler' for q in chains.get(id(r), ()))) and es(r) == 'ast.attrs':
                 rep.ok('ATTRS-READ', '%s|%s|type-level loop' % (f.qname, inst))
             else:
                 rep.bad('ATTRS-READ', f.qname, inst, 'attributes are read outside a trait\'s own scanner: `%s`' % es(r), f.file, r.get('l'))
